@@ -76,6 +76,37 @@ CHECKS = {
          'result element against nested-list integer arithmetic (mod 2^bits, exact where the declared width must hold the value).',
          'Trusted: nested-list oracle, Simulation semantics (C01), z3. Bounded: shapes <= 3x3 (thorough 4x4), element widths <= 8, products <= 3 bits.',
          'symbolic simulation of Matrix circuits + per-element SMT comparison with integer-matrix arithmetic'),
+
+ 'C02': (TV, '4 C02', 'Per design and form (pre / synthesized merged+unmerged / optimized): FastSimulation (its generated Python executed through an AST hook) '
+         'and CompiledSimulation (real constructor + gcc; the generated C translated to z3 by vf/ctrans.py; the real run() executed over list buffers) '
+         'against the real Simulation on shared variables: every traced wire every cycle, memories at every address.',
+         'Trusted: vf/ctrans.py (C subset semantics), total-map model of the C hash-map helper, gcc, mul64 abstraction for products > 4x4 bits with range facts. '
+         'Bounded: widths crossing every 64-bit limb boundary up to 129, K=3 (quick).',
+         'symbolic execution of the three simulators (generated Python via AST hook, generated C via a C-subset-to-SMT translator) + SMT equivalence'),
+ 'C05': (TV, '4 C05', 'Per design and add_reset option: the emitted Verilog is parsed and evaluated by vf/vtrans.py under Verilog-2001 width / non-blocking rules '
+         'and compared with the real Simulation (BMC-K from reset, rst=1 step); testbenches from traces of all three simulators are parsed back (inputs as '
+         'symbolic terms) and must drive the module to the traced outputs and initialise the recorded state.',
+         'Trusted: vf/vtrans.py (no Verilog simulator available). Bounded: OP/EXPR/SEQ/MISC/NAMES/MEM/ROM designs, K=3.',
+         'translation validation: emitted Verilog text -> SMT (own Verilog-subset evaluator) vs symbolic Simulation'),
+ 'C08': (MC, '4 C08', 'Memory-centred designs (1-3 read, 1-2 write ports, widths to 70): one step from an ARBITRARY array (covers every history) and BMC from an '
+         'uninitialised memory, on Simulation, FastSimulation, the C model, and Simulation of synthesized/optimized blocks; ROM data as list/dict/function with '
+         'holes raising exactly when documented. (Verilog clause: under C05.)',
+         'Trusted: array oracle, ctrans total-map model (helper text checked separately), z3 array theory. Bounded: port counts, widths, K.',
+         'symbolic simulation from an arbitrary z3 array + SMT (inductive step + BMC)'),
+ 'C12': (TV, '4 C12', 'Generated BLIF/.bench texts (exhaustive covers over <=2 inputs, seeded covers, every listed flip-flop cell, latch init codes, two-level '
+         '.subckt, vector ports) are imported by the real importers; the block runs on the real Simulation symbolically against an independent reader.',
+         'Trusted: vf/bliftrans.py (format semantics incl. the Yosys cell table derived from cell names). Bounded: text family, K=4.',
+         'translation validation: imported netlist (symbolic Simulation) vs independent BLIF/bench reader in SMT'),
+ 'C15': (MC, '4 C15', 'inspect == last trace entry and trace length after every step; step_multiple with symbolic inputs AND symbolic expected values: per explored '
+         'path the parsed report lists exactly the mismatching pairs; rtl_assert outcome per path; illegal input values as an unconstrained variable '
+         '(rejected iff outside [0,2^w)); VCD parsed back through placeholders; print_trace on solver-chosen witnesses.',
+         'Trusted: placeholder/parse-back stubs, z3. Bounded: designs, K=3; print_trace is a witness check (C-level formatting).',
+         'symbolic execution of step/step_multiple/inspect/print_vcd/run with path exploration + SMT'),
+ 'C20': (MC, '4 C20', 'Read-only: symbolic trace and object fingerprint of the block before vs after each export/analysis call. Deterministic: the four texts the '
+         'property names are emitted under every iteration order the code can distinguish when any two objects get symbolic ranks; bytes must be identical; '
+         'sort keys checked for collisions over short names.',
+         'Trusted: order model (one global rank order induces every controlled set). Bounded: designs <= 14 objects, pairs of objects, names <= 4 chars.',
+         'schedule exploration with symbolic ranks (SMT-pruned) + symbolic trace comparison'),
 }
 PENDING = {}
 
